@@ -10,24 +10,23 @@ vars == <<kind, sc, ph, d, res, steps>>
 
 Outs == {ROk(t) : t \in Texts} \cup {RErr(k) : k \in ErrKinds}
 FewOuts == {ROk(CHOOSE t \in Texts : TRUE), RNotFound, RErr("checksum")}
-Bitmaps(O) == {Bitmap(h, top, bot, f, b) : h \in Heights, top \in {0, 1, 2}, bot \in {0, 1, 2, 3, 40, 70}, f \in O, b \in O}
-WF(img) == img.top <= img.bot /\ img.bot <= img.h /\ (img.h > 5 => img.bot >= img.h - 2)
+Bitmaps(O) == UNION {{Bitmap(h, top, bot, f, b) : top \in {0, 1, 2}, bot \in {0, 1, 2, 3, h - 1, h}, f \in O, b \in O} : h \in Heights}
+WF(img) == img.top <= img.bot /\ img.bot <= img.h /\ (img.h > 5 => img.bot >= img.h - 1)
 NoRes == [out |-> RNotFound, orient |-> -1, mir |-> -1]
 
 Init == kind = "start" /\ sc = <<>> /\ ph = "choose" /\ d = ScanInit /\ res = NoRes /\ steps = 0
 ChooseOneD == /\ ph = "choose" /\ kind = "start"
-              /\ \E img \in Bitmaps(Outs) : WF(img) /\ sc' = [img |-> img] /\ kind' = "oned" /\ ph' = "choose2"
-              /\ UNCHANGED <<d, res, steps>>
-ChooseTurned == /\ ph = "choose2"
-                /\ \E t \in Bitmaps(FewOuts), th \in BOOLEAN : WF(t) /\ sc' = [img |-> sc.img, turned |-> t, th |-> th]
-                /\ ph' = "scan1" /\ d' = ScanInit /\ UNCHANGED <<kind, res, steps>>
+              /\ \E img \in Bitmaps(Outs), th \in BOOLEAN : WF(img) /\ sc' = [img |-> img, turned |-> img, th |-> th]
+              /\ kind' = "oned" /\ ph' = "scan1" /\ d' = ScanInit /\ UNCHANGED <<res, steps>>
 Scan1 == /\ ph = "scan1" /\ ~d.done
          /\ d' = ScanStep(sc.img, sc.th, d) /\ steps' = steps + 1 /\ UNCHANGED <<kind, sc, ph, res>>
+\* the quarter-turned bitmap matters only when the first scan found nothing and the reader tries harder: chosen then
 End1 == /\ ph = "scan1" /\ d.done
-        /\ IF d.out.k = "ok" THEN ph' = "done" /\ res' = [out |-> d.out, orient |-> d.orient, mir |-> -1] /\ d' = d
-           ELSE IF ~sc.th THEN ph' = "done" /\ res' = [out |-> RNotFound, orient |-> 0, mir |-> -1] /\ d' = d
-           ELSE ph' = "scan2" /\ d' = ScanInit /\ res' = res
-        /\ UNCHANGED <<kind, sc, steps>>
+        /\ IF d.out.k = "ok" THEN ph' = "done" /\ res' = [out |-> d.out, orient |-> d.orient, mir |-> -1] /\ d' = d /\ sc' = sc
+           ELSE IF ~sc.th THEN ph' = "done" /\ res' = [out |-> RNotFound, orient |-> 0, mir |-> -1] /\ d' = d /\ sc' = sc
+           ELSE /\ \E t \in Bitmaps(FewOuts) : WF(t) /\ sc' = [sc EXCEPT !.turned = t]
+                /\ ph' = "scan2" /\ d' = ScanInit /\ res' = res
+        /\ UNCHANGED <<kind, steps>>
 Scan2 == /\ ph = "scan2" /\ ~d.done
          /\ d' = ScanStep(sc.turned, sc.th, d) /\ steps' = steps + 1 /\ UNCHANGED <<kind, sc, ph, res>>
 End2 == /\ ph = "scan2" /\ d.done
@@ -46,7 +45,7 @@ StepQR == /\ ph = "qr" /\ sc.q.phase # "done"
 EndQR == /\ ph = "qr" /\ sc.q.phase = "done"
          /\ res' = [out |-> sc.q.out, orient |-> -1, mir |-> sc.q.mir] /\ ph' = "done"
          /\ UNCHANGED <<kind, sc, d, steps>>
-Next == ChooseOneD \/ ChooseTurned \/ Scan1 \/ End1 \/ Scan2 \/ End2 \/ ChooseQR \/ StepQR \/ EndQR
+Next == ChooseOneD \/ Scan1 \/ End1 \/ Scan2 \/ End2 \/ ChooseQR \/ StepQR \/ EndQR
 Spec == Init /\ [][Next]_vars
 
 (* ---------------------------------------------------------------- laws *)
